@@ -117,7 +117,35 @@ structure Variant where
   narrowIgnoresLabels : Bool := false
   /-- before 9604765: `contains_cycle` did not look inside callable / process types -/
   cycleCheckSkipsCallable : Bool := false
+  /-- before fd75268: a left-hand `Cycle` was resolved on the RIGHT-hand stack (and the stacks were
+  not swapped in contravariant positions): R1 -/
+  leftCycleOnRightStack : Bool := false
+  /-- before fd75268: two `Cycle`s of the same depth were taken for the same recursive type without
+  resolving them -/
+  cycleSameDepthShortcut : Bool := false
+  /-- before 4bee69d: equal ids were taken for equal types even below different enclosing types
+  (their back-references then mean different things) -/
+  equalIdsIgnoreContext : Bool := false
   deriving DecidableEq, Repr, Inhabited
+
+/-- The two stacks of enclosing boundary types (each top first): `l` for the left (self) type, `r`
+for the right (pattern) type — the Rust `self_stack` / `type_stack` (fix fd75268; before it there was
+only the right one, and a left-hand `Cycle` was resolved on it). -/
+structure Stk where
+  l : List Nat := []
+  r : List Nat := []
+  deriving DecidableEq, Repr, Inhabited
+
+def Stk.pushL (s : Stk) (id : Nat) : Stk := { s with l := pushStack s.l id }
+def Stk.pushR (s : Stk) (id : Nat) : Stk := { s with r := pushStack s.r id }
+/-- contravariant positions: the two sides swap roles, and so do their stacks -/
+def Stk.swap (s : Stk) : Stk := ⟨s.r, s.l⟩
+
+/-- the same id is the same type when its back-references mean the same on both sides: the two
+sides sit below the same enclosing types (fix 4bee69d); for overlap the optimistic answer is the safe
+one, so there the same id always overlaps itself -/
+def sameContext (vr : Variant) (mode : Mode) (st : Stk) : Bool :=
+  vr.equalIdsIgnoreContext || (match mode with | .any => true | .all => false) || decide (st.l = st.r)
 
 /-- Restore the snapshot when a union check fails (fix e428d71). -/
 def restoreOnFail (vr : Variant) (snapshot : Asm) : Res → Res
@@ -125,41 +153,41 @@ def restoreOnFail (vr : Variant) (snapshot : Asm) : Res → Res
   | some (true, s') => some (true, s')
   | some (false, s') => some (false, if vr.keepFailedAssumptions then s' else snapshot)
 
-abbrev Rec := Asm → List Nat → Nat → Nat → Res
+abbrev Rec := Asm → Stk → Nat → Nat → Res
 
 /-- `(Type::Cycle(depth), _)`: resolve on the stack, else `true` ("coinductive reasoning"). -/
-def cycleLeft (rec : Rec) (asm : Asm) (st : List Nat) (d b : Nat) : Res :=
-  match resolveCycle st d with
+def cycleLeft (vr : Variant) (rec : Rec) (asm : Asm) (st : Stk) (d b : Nat) : Res :=
+  match resolveCycle (if vr.leftCycleOnRightStack then st.r else st.l) d with
   | none => some (true, asm)
   | some sid => rec asm st sid b
 
 /-- `(_, Type::Cycle(depth))`. -/
-def cycleRight (rec : Rec) (asm : Asm) (st : List Nat) (a d : Nat) : Res :=
-  match resolveCycle st d with
+def cycleRight (rec : Rec) (asm : Asm) (st : Stk) (a d : Nat) : Res :=
+  match resolveCycle st.r d with
   | none => some (true, asm)
   | some sid => rec asm st a sid
 
 /-- `(Type::Union(variants), _)` with a non-empty left union. -/
-def unionLeft (vr : Variant) (mode : Mode) (rec : Rec) (asm : Asm) (st : List Nat) (a b : Nat)
+def unionLeft (vr : Variant) (mode : Mode) (rec : Rec) (asm : Asm) (st : Stk) (a b : Nat)
     (vs : List Nat) : Res :=
   restoreOnFail vr asm
     (match mode with
-     | .all => allS (fun s v => rec s st v b) vs ((a, b) :: asm)
-     | .any => anyS (fun s v => rec s st v b) vs ((a, b) :: asm))
+     | .all => allS (fun s v => rec s (st.pushL a) v b) vs ((a, b) :: asm)
+     | .any => anyS (fun s v => rec s (st.pushL a) v b) vs ((a, b) :: asm))
 
 /-- `(_, Type::Union(variants))`. -/
-def unionRight (vr : Variant) (rec : Rec) (asm : Asm) (st : List Nat) (a b : Nat) (vs : List Nat) :
+def unionRight (vr : Variant) (rec : Rec) (asm : Asm) (st : Stk) (a b : Nat) (vs : List Nat) :
     Res :=
-  restoreOnFail vr asm (anyS (fun s v => rec s (pushStack st b) a v) vs ((a, b) :: asm))
+  restoreOnFail vr asm (anyS (fun s v => rec s (st.pushR b) a v) vs ((a, b) :: asm))
 
 /-- the zipped field loop of the tuple-vs-tuple arm. -/
-def tupleFields (rec : Rec) (st : List Nat)
+def tupleFields (rec : Rec) (st : Stk)
     (zipped : List ((Option Name × Nat) × (Option Name × Nat))) (asm : Asm) : Res :=
   allS (fun s p => if p.1.1 = p.2.1 then rec s st p.1.2 p.2.2 else some (false, s)) zipped asm
 
 /-- `(Type::Tuple(id1), Type::Tuple(id2))`. -/
-def tupleTuple (T : Table) (rec : Rec) (asm : Asm) (st : List Nat) (i1 i2 : Nat) : Res :=
-  if i1 = i2 then some (true, asm)
+def tupleTuple (vr : Variant) (T : Table) (mode : Mode) (rec : Rec) (asm : Asm) (st : Stk) (i1 i2 : Nat) : Res :=
+  if i1 = i2 ∧ sameContext vr mode st = true then some (true, asm)
   else
     match T.tuples[i1]?, T.tuples[i2]? with
     | some info1, some info2 =>
@@ -169,7 +197,7 @@ def tupleTuple (T : Table) (rec : Rec) (asm : Asm) (st : List Nat) (i1 i2 : Nat)
     | _, _ => some (false, asm)
 
 /-- every partial field exists in the concrete tuple with a related type (`all` of `any`). -/
-def tuplePartFields (rec : Rec) (st : List Nat) (cfs : List (Option Name × Nat))
+def tuplePartFields (rec : Rec) (st : Stk) (cfs : List (Option Name × Nat))
     (pfs : List (Name × Nat)) (asm : Asm) : Res :=
   allS (fun s (pf : Name × Nat) =>
           anyS (fun s' (cf : Option Name × Nat) =>
@@ -178,7 +206,7 @@ def tuplePartFields (rec : Rec) (st : List Nat) (cfs : List (Option Name × Nat)
        pfs asm
 
 /-- `(Type::Tuple(concrete_id), Type::Partial { .. })`. -/
-def tuplePart (T : Table) (rec : Rec) (asm : Asm) (st : List Nat) (c : Nat) (pn : Option Name)
+def tuplePart (T : Table) (rec : Rec) (asm : Asm) (st : Stk) (c : Nat) (pn : Option Name)
     (pfs : List (Name × Nat)) : Res :=
   match T.tuples[c]? with
   | none => some (false, asm)
@@ -200,7 +228,7 @@ def nameConflict (vr : Variant) (mode : Mode) (n1 n2 : Option Name) : Bool :=
 /-- the field loop of the partial-vs-partial arm: `fields1.iter().find(name)` takes the FIRST
 field of self with that name; a field self does not mention fails assignability and is
 unconstrained for overlap (fix 5646380). -/
-def partPartFields (vr : Variant) (mode : Mode) (rec : Rec) (st : List Nat)
+def partPartFields (vr : Variant) (mode : Mode) (rec : Rec) (st : Stk)
     (fs1 fs2 : List (Name × Nat)) (asm : Asm) : Res :=
   if vr.partFieldsAnyStrict then
     allS (fun s (f2 : Name × Nat) =>
@@ -216,13 +244,13 @@ def partPartFields (vr : Variant) (mode : Mode) (rec : Rec) (st : List Nat)
          fs2 asm
 
 /-- `(Type::Partial { .. }, Type::Partial { .. })`. -/
-def partPart (vr : Variant) (mode : Mode) (rec : Rec) (asm : Asm) (st : List Nat)
+def partPart (vr : Variant) (mode : Mode) (rec : Rec) (asm : Asm) (st : Stk)
     (n1 : Option Name) (fs1 : List (Name × Nat)) (n2 : Option Name) (fs2 : List (Name × Nat)) : Res :=
   if nameConflict vr mode n1 n2 then some (false, asm)
   else partPartFields vr mode rec st fs1 fs2 asm
 
 /-- every partial field exists in the concrete tuple with a related type, partial on the LEFT. -/
-def partTupleFields (rec : Rec) (st : List Nat) (cfs : List (Option Name × Nat))
+def partTupleFields (rec : Rec) (st : Stk) (cfs : List (Option Name × Nat))
     (pfs : List (Name × Nat)) (asm : Asm) : Res :=
   allS (fun s (pf : Name × Nat) =>
           anyS (fun s' (cf : Option Name × Nat) =>
@@ -232,7 +260,7 @@ def partTupleFields (rec : Rec) (st : List Nat) (cfs : List (Option Name × Nat)
 
 /-- `(Type::Partial { .. }, Type::Tuple(id)) if mode == Any` (fix f3628e7); in ALL mode the pair
 falls to `_ => false`. -/
-def partTuple (vr : Variant) (T : Table) (mode : Mode) (rec : Rec) (asm : Asm) (st : List Nat)
+def partTuple (vr : Variant) (T : Table) (mode : Mode) (rec : Rec) (asm : Asm) (st : Stk)
     (pn : Option Name) (pfs : List (Name × Nat)) (c : Nat) : Res :=
   match mode, vr.noPartTupleArm with
   | .all, _ => some (false, asm)
@@ -245,13 +273,13 @@ def partTuple (vr : Variant) (T : Table) (mode : Mode) (rec : Rec) (asm : Asm) (
       else partTupleFields rec st ci.fields pfs asm
 
 /-- one direction of a process type: checked only when both sides know it. -/
-def optRel (rec : Rec) (asm : Asm) (st : List Nat) : Option Nat → Option Nat → Res
+def optRel (rec : Rec) (asm : Asm) (st : Stk) : Option Nat → Option Nat → Res
   | some x, some y => rec asm st x y
   | _, _ => some (true, asm)
 
 /-- `(Type::Process { .. }, Type::Process { .. })`: both sub-checks are always evaluated
 (`let send_ok = …; let receive_ok = …; send_ok && receive_ok`). -/
-def processProcess (rec : Rec) (asm : Asm) (st : List Nat) (s1 r1 s2 r2 : Option Nat) : Res :=
+def processProcess (rec : Rec) (asm : Asm) (st : Stk) (s1 r1 s2 r2 : Option Nat) : Res :=
   match optRel rec asm st s1 s2 with
   | none => none
   | some (sendOk, asm1) =>
@@ -261,21 +289,24 @@ def processProcess (rec : Rec) (asm : Asm) (st : List Nat) (s1 r1 s2 r2 : Option
 
 /-- `(Type::Callable { .. }, Type::Callable { .. })`: the pattern is pushed on the stack;
 parameter contravariant && result covariant && receive contravariant (short-circuit). -/
-def callableCallable (rec : Rec) (asm : Asm) (st : List Nat) (b : Nat)
+def callableCallable (vr : Variant) (rec : Rec) (asm : Asm) (st : Stk) (a b : Nat)
     (p1 r1 c1 p2 r2 c2 : Nat) : Res :=
-  match rec asm (pushStack st b) p2 p1 with
+  -- both callables are pushed on their own stacks; contravariant positions swap the stacks
+  let st' := (st.pushR b).pushL a
+  let stc := if vr.leftCycleOnRightStack then st' else st'.swap
+  match rec asm stc p2 p1 with
   | none => none
   | some (false, s1) => some (false, s1)
   | some (true, s1) =>
-    match rec s1 (pushStack st b) r1 r2 with
+    match rec s1 st' r1 r2 with
     | none => none
     | some (false, s2) => some (false, s2)
-    | some (true, s2) => rec s2 (pushStack st b) c2 c1
+    | some (true, s2) => rec s2 stc c2 c1
 
 /-- The `match (self_type, pattern_type)` of `check_type_relation`, arms in source order, with
 the recursive call abstracted as `rec` (so that facts about one unfolding are stated once). -/
 def relStep (vr : Variant) (T : Table) (mode : Mode) (rec : Rec)
-    (asm : Asm) (st : List Nat) (a b : Nat) (ta tb : Ty) : Res :=
+    (asm : Asm) (st : Stk) (a b : Nat) (ta tb : Ty) : Res :=
   match ta, tb with
   -- empty union on the left: bottom type
   | .union [], _ => some (match mode with | .all => true | .any => false, asm)
@@ -286,13 +317,13 @@ def relStep (vr : Variant) (T : Table) (mode : Mode) (rec : Rec)
   | .variable _, _ => some (true, asm)
   | _, .variable _ => some (true, asm)
   | .cycle d1, .cycle d2 =>
-    -- same depth: `true`; otherwise the pair falls to the arm `(Type::Cycle(depth), _)`
-    if d1 = d2 then some (true, asm) else cycleLeft rec asm st d1 b
-  | .cycle d, _ => cycleLeft rec asm st d b
+    -- (before fd75268: same depth ⇒ `true`) the pair falls to the arm `(Type::Cycle(depth), _)`
+    if vr.cycleSameDepthShortcut = true ∧ d1 = d2 then some (true, asm) else cycleLeft vr rec asm st d1 b
+  | .cycle d, _ => cycleLeft vr rec asm st d b
   | _, .cycle d => cycleRight rec asm st a d
   | .union vs, _ => unionLeft vr mode rec asm st a b vs
   | _, .union vs => unionRight vr rec asm st a b vs
-  | .tuple i1, .tuple i2 => tupleTuple T rec asm st i1 i2
+  | .tuple i1, .tuple i2 => tupleTuple vr T mode rec asm st i1 i2
   | .tuple c, .part pn pfs => tuplePart T rec asm st c pn pfs
   | .part n1 fs1, .part n2 fs2 => partPart vr mode rec asm st n1 fs1 n2 fs2
   | .part pn pfs, .tuple c => partTuple vr T mode rec asm st pn pfs c
@@ -300,15 +331,15 @@ def relStep (vr : Variant) (T : Table) (mode : Mode) (rec : Rec)
   | .callable p1 r1 c1, .callable p2 r2 c2 =>
     -- the pair is recorded as a coinductive assumption and dropped again on failure, as in the
     -- union arms (fix 30aca33)
-    if vr.callableNoAssumption then callableCallable rec asm st b p1 r1 c1 p2 r2 c2
-    else restoreOnFail vr asm (callableCallable rec ((a, b) :: asm) st b p1 r1 c1 p2 r2 c2)
+    if vr.callableNoAssumption then callableCallable vr rec asm st a b p1 r1 c1 p2 r2 c2
+    else restoreOnFail vr asm (callableCallable vr rec ((a, b) :: asm) st a b p1 r1 c1 p2 r2 c2)
   | _, _ => some (false, asm)
 
 /-- `check_type_relation(self_id, pattern_id, lookup, mode, assumptions, type_stack)`. -/
-def checkRelV (vr : Variant) (T : Table) (mode : Mode) : Nat → Asm → List Nat → Nat → Nat → Res
+def checkRelV (vr : Variant) (T : Table) (mode : Mode) : Nat → Asm → Stk → Nat → Nat → Res
   | 0, _, _, _, _ => none
   | fuel + 1, asm, st, a, b =>
-    if a = b then some (true, asm)
+    if a = b ∧ sameContext vr mode st = true then some (true, asm)
     else if asm.contains (a, b) then some (true, asm)
     else
       match T.types[a]?, T.types[b]? with
@@ -318,16 +349,16 @@ def checkRelV (vr : Variant) (T : Table) (mode : Mode) : Nat → Asm → List Na
 /-- the relation of the code as it is now -/
 abbrev Variant.current : Variant := {}
 
-def checkRel (T : Table) (mode : Mode) : Nat → Asm → List Nat → Nat → Nat → Res :=
+def checkRel (T : Table) (mode : Mode) : Nat → Asm → Stk → Nat → Nat → Res :=
   checkRelV Variant.current T mode
 
 /-- `is_compatible(self_id, pattern_id, lookup)`; `none` = out of fuel. -/
 def isCompatible (T : Table) (fuel : Nat) (a b : Nat) : Option Bool :=
-  (checkRel T .all fuel [] [] a b).map (·.1)
+  (checkRel T .all fuel [] {} a b).map (·.1)
 
 /-- `types_overlap(self_id, pattern_id, lookup)`; `none` = out of fuel. -/
 def typesOverlap (T : Table) (fuel : Nat) (a b : Nat) : Option Bool :=
-  (checkRel T .any fuel [] [] a b).map (·.1)
+  (checkRel T .any fuel [] {} a b).map (·.1)
 
 /-! ### Registration (`Program::register_type`, `register_tuple`, `never`) -/
 
